@@ -1597,7 +1597,7 @@ def hpt_post(c, p):
 
 
 Q(name="e2_handle_packet_tail", props=["C08"], func=r"connection/mod\.rs:\d+:1: \d+:16>::handle_packet$",
-  src="connection/mod.rs", within=r"^    fn handle_packet\(", start_line=r"if !was_closed && self\.state\.is_closed\(\)",
+  src="connection/mod.rs", within=r"^    fn handle_packet\(", start_line=[r"if !was_closed && self\.state\.is_closed\(\)", r"(?#before)^            self\.close_common\(\);"],
   inline=[r"State::is_closed$", r"State::is_drained$"], allowed_panics=r".",
   functions=["Connection::handle_packet (slice: from `if !was_closed && self.state.is_closed()` to the end)"], pre=lambda c: "true", post=hpt_post,
   bounds="the closing lines of handle_packet, executed from an ARBITRARY state (every local and all memory unconstrained - an over-approximation of whatever the packet processing before it did): on every path that queues EndpointEvent::Drained, the Close timer is stopped afterwards and not armed again; the slice is located through the source text of the function",
@@ -1695,7 +1695,7 @@ def bh_post(c, p):
 
 
 Q(name="e2_black_hole_purges_datagrams_slice", props=["C16", "C13"], func=r"connection/mod\.rs:\d+:1: \d+:16>::detect_lost_packets$",
-  src="connection/mod.rs", within=r"^    fn detect_lost_packets\(", start_line=r"if self\.path\.mtud\.black_hole_detected\(now\)", end_line=r"let lost_ack_eliciting = ",
+  src="connection/mod.rs", within=r"^    fn detect_lost_packets\(", start_line=[r"if self\.path\.mtud\.black_hole_detected\(now\)", r"(?#before)self\.stats\.path\.black_holes_detected \+= 1;"], end_line=r"let lost_ack_eliciting = ",
   check_stop=True, allowed_panics=r".", ignore_untranslatable=r"^loop at",
   modifies=lambda c: {r"on_mtu_update$": ["*call:"], r"Datagrams::max_size$": []},
   functions=["Connection::detect_lost_packets (slice: reaction to a detected black hole)"], pre=lambda c: "true", post=bh_post,
@@ -1723,7 +1723,7 @@ def pg_post(c, p):
 
 
 Q(name="e2_poll_transmit_pad_guard_slice", props=["C13"], func=r"connection/mod\.rs:\d+:1: \d+:16>::poll_transmit$",
-  src="connection/mod.rs", within=r"^    pub fn poll_transmit\(", start_line=r"if pad_datagram_to_mtu && ", end_line=r"let last_packet_number = builder\.exact_number;",
+  src="connection/mod.rs", within=r"^    pub fn poll_transmit\(", start_line=[r"if pad_datagram_to_mtu && ", r"(?#after)// by less than `segment_size`\.$"], end_line=r"let last_packet_number = builder\.exact_number;",
   check_stop=True, allowed_panics=r".", ignore_untranslatable=r"^loop at",
   functions=["Connection::poll_transmit (slice: the padding decision before a packet is finished)"], pre=lambda c: "true", post=pg_post,
   bounds="from an arbitrary state (datagram_start, segment_size, buf_capacity and the flag unconstrained): PacketBuilder::pad_to is called with exactly segment_size, and only when datagram_start + segment_size <= buf_capacity, the budget computed for this datagram (smaller than a segment for loss probes); the locals are identified through the MIR's debug-name table, the slice through the source text",
@@ -1789,7 +1789,7 @@ def gate_post_wrap(c, p):
 
 
 Q(name="e2_poll_transmit_new_datagram_gate_slice", props=["C07", "C12"], func=r"connection/mod\.rs:\d+:1: \d+:16>::poll_transmit$",
-  src="connection/mod.rs", within=r"^    pub fn poll_transmit\(", start_line=r"if num_datagrams >= max_datagrams \{", end_line=[r"if let Some\(mut builder\) = builder_storage\.take\(\) \{", r"(?#loophead)while space_idx < spaces\.len\(\) \{", r"if let Some\(mut builder\) = builder_storage \{"],
+  src="connection/mod.rs", within=r"^    pub fn poll_transmit\(", start_line=[r"if num_datagrams >= max_datagrams \{", r"(?#after)// We need to send 1 more datagram and extend the buffer for that\.$"], end_line=[r"if let Some\(mut builder\) = builder_storage\.take\(\) \{", r"(?#loophead)while space_idx < spaces\.len\(\) \{", r"if let Some\(mut builder\) = builder_storage \{"],
   pure=[r"anti_amplification_blocked$", r"Controller>::window$", r"Index<SpaceId>>::index$", r"RttEstimator::get$", r"current_mtu$"],
   check_stop=True, allowed_panics=r".", ignore_untranslatable=r"^loop at",
   functions=["Connection::poll_transmit (slice: the checks between 'one more datagram is needed' and starting it)"],
@@ -1814,7 +1814,7 @@ def mp_post(c, p):
 
 
 Q(name="e2_poll_transmit_mtu_probe_gate_slice", props=["C07"], func=r"connection/mod\.rs:\d+:1: \d+:16>::poll_transmit$",
-  src="connection/mod.rs", within=r"^    pub fn poll_transmit\(", start_line=r"if buf\.is_empty\(\) && self\.state\.is_established\(\)", end_line=r"self\.stats\.path\.sent_plpmtud_probes \+= 1;",
+  src="connection/mod.rs", within=r"^    pub fn poll_transmit\(", start_line=[r"if buf\.is_empty\(\) && self\.state\.is_established\(\)", r"(?#after)// Send MTU probe if necessary"], end_line=r"self\.stats\.path\.sent_plpmtud_probes \+= 1;",
   pure=[r"anti_amplification_blocked$"], inline=[r"State::is_established$"], check_stop=True, allowed_panics=r".", ignore_untranslatable=r"^loop at",
   functions=["Connection::poll_transmit (slice: the MTU probe section after the main loop)"], pre=lambda c: "true", post=mp_post,
   bounds="from an arbitrary state: a packet builder for an MTU probe is created only if the path is validated (or an anti-amplification check covering the probe said it is not blocked); the main loop's budget check does not cover this datagram; slice located through the source text",
@@ -2238,7 +2238,7 @@ def mtg_post(c, p):
 
 
 Q(name="e2_migration_trigger_slice", props=["C15"], func=r"connection/mod\.rs:\d+:1: \d+:16>::process_payload$",
-  src="connection/mod.rs", within=r"^    fn process_payload\(", start_line=r"^        if remote != self\.path\.remote$",
+  src="connection/mod.rs", within=r"^    fn process_payload\(", start_line=[r"^        if remote != self\.path\.remote$", r"(?#before)^            && !is_probing_packet$"],
   allowed_panics=r".", ignore_untranslatable=r"Transmute",
   functions=["Connection::process_payload (slice: the migration trigger after the frame loop)"], pre=lambda c: "true", post=mtg_post,
   bounds="the end of process_payload from an ARBITRARY state: `migrate(now, remote)` (followed by a CID change) runs if and only if the packet came from an address other than the current path's, carried a non-probing frame (`is_probing_packet` false) and has the highest packet number received so far in the Data space; the panic for a client reaching this point is outside the claim (e2_handle_event_remote_check shows clients drop such packets)",
@@ -2343,7 +2343,7 @@ def dlp_post(c, p):
 
 
 Q(name="e2_detect_lost_iteration_slice", props=["C12"], func=r"connection/mod\.rs:\d+:1: \d+:16>::detect_lost_packets$",
-  src="connection/mod.rs", within=r"^    fn detect_lost_packets\(", start_line=r"if prev_packet != Some\(packet\.wrapping_sub\(1\)\)", end_line=[r"^            prev_packet = Some\(packet\);", r"if info\.ack_eliciting && due_to_ack \{"],
+  src="connection/mod.rs", within=r"^    fn detect_lost_packets\(", start_line=[r"if prev_packet != Some\(packet\.wrapping_sub\(1\)\)", r"(?#before)// An intervening packet was acknowledged"], end_line=[r"^            prev_packet = Some\(packet\);", r"if info\.ack_eliciting && due_to_ack \{"],
   allowed_panics=r".", check_stop=True,
   functions=["Connection::detect_lost_packets (slice: one iteration of the scan over unacknowledged packets below the largest acknowledged one)"], pre=lambda c: "true", post=dlp_post,
   bounds="one iteration of the loss scan from an ARBITRARY state (any packet, send time, thresholds, loop-carried variables): the packet is declared lost exactly when (RFC 9002 6.1) it was sent at least loss_delay before now or at least packet_threshold packets before the largest acknowledged one; a lost packet is pushed onto lost_packets exactly once with its own number, except the in-flight MTU probe, which is recorded as lost_mtu_probe instead; otherwise the packet stays outstanding; Instant::saturating_duration_since is opaque (asked about now and this packet's send time); the u64 overflow of packet + packet_threshold (config value near 2^64) is outside the claim",
@@ -2389,7 +2389,7 @@ def r0_post(c, p):
 
 
 Q(name="e2_retransmit_all_for_0rtt_iteration", props=["C17", "C01"], func=r"streams/state\.rs:\d+:1: \d+:18>::retransmit_all_for_0rtt$",
-  src="connection/streams/state.rs", within=r"fn retransmit_all_for_0rtt\(", start_line=r"if stream\.pending\.is_fully_acked\(\) && !stream\.fin_pending \{",
+  src="connection/streams/state.rs", within=r"fn retransmit_all_for_0rtt\(", start_line=[r"if stream\.pending\.is_fully_acked\(\) && !stream\.fin_pending \{", r"(?#before)// Stream data can't be acked in 0-RTT"],
   end_line=[r"(?#loophead)for index in 0\.\.self\.next\[dir as usize\] \{"],
   allowed_panics=r".", check_stop=True, inline=[r"is_fully_acked$", r"Send::is_pending$", r"SendBuffer::retransmit_all_for_0rtt$", r"has_unsent_data$"],
   functions=["StreamsState::retransmit_all_for_0rtt (slice: the body of the per-stream loop)", "SendBuffer::retransmit_all_for_0rtt", "SendBuffer::is_fully_acked", "Send::is_pending"],
@@ -2417,7 +2417,7 @@ def pvt_post(c, p):
 
 
 Q(name="e2_path_validation_timeout_slice", props=["C15"], func=r"connection/mod\.rs:\d+:1: \d+:16>::handle_timeout$",
-  src="connection/mod.rs", within=r"^    pub fn handle_timeout\(", start_line=r"if let Some\(\(_, prev\)\) = self\.prev_path\.take\(\) \{",
+  src="connection/mod.rs", within=r"^    pub fn handle_timeout\(", start_line=[r"if let Some\(\(_, prev\)\) = self\.prev_path\.take\(\) \{", r"(?#before)^                        self\.path = prev;"],
   end_line=[r"(?#loophead)for &timer in &Timer::VALUES \{", r"Timer::Pacing => trace!"],
   allowed_panics=r".", check_stop=True,
   functions=["Connection::handle_timeout (slice: the PathValidation arm from the point where the previous path is taken back)"], pre=lambda c: "true", post=pvt_post,
